@@ -400,6 +400,32 @@ pub mod commit_overlay {
 			Ok(())
 		}
 
+		/// Check that every operation is valid for the column. A transaction is checked as a
+		/// whole before any part of it is copied to the commit overlay.
+		pub fn check(&self, options: &Options) -> Result<()> {
+			let ref_counted = options.columns[self.col as usize].ref_counted;
+			for change in self.changes.iter() {
+				match change {
+					Operation::Set(..) | Operation::Dereference(..) => (),
+					Operation::Reference(..) =>
+						if !ref_counted {
+							return Err(Error::InvalidInput(format!(
+								"No Rc for column {}",
+								self.col
+							)))
+						},
+					Operation::InsertTree(..) |
+					Operation::ReferenceTree(..) |
+					Operation::DereferenceTree(..) =>
+						return Err(Error::InvalidInput(format!(
+							"Invalid operation for column {}",
+							self.col
+						))),
+				}
+			}
+			Ok(())
+		}
+
 		pub fn copy_to_overlay(
 			&self,
 			overlay: &mut BTreeCommitOverlay,
